@@ -254,10 +254,22 @@ def run_kani_unit(uname, ucfg, tier, scratch, only=None):
     if out["canary_failed"] is not True:
         out["status"] = "undecided"
         out["reason"] = "canary harness did not fail (pipeline broken?): " + info["output_tail"][-800:]
+    # A BOUNDED harness that did not complete (timeout / memory cap / solver crash) explored nothing: it is
+    # reported as `not_completed` (evidence + stderr) but is not fatal -- exit 0 means "held on
+    # everything explored". Everything else that is undecided (lost obligation, vacuity guard,
+    # unwinding bound too small, unsupported construct) means the machinery no longer fits the code.
+    for o in out["obligations"]:
+        if o["kind"] == "bounded" and o["status"] == "undecided" and \
+                ("did not complete" in o["reason"] or "wall-clock timeout" in o["reason"]):
+            o["status"] = "not_completed"
     und = [o for o in out["obligations"] if o["status"] == "undecided"]
     if und and out["status"] == "ok":
         out["status"] = "undecided"
         out["reason"] = "; ".join(f"{o['name']}: {o['reason']}" for o in und)[:1500]
+    done = [o for o in out["obligations"] if o["status"] in ("discharged", "failed")]
+    if out["status"] == "ok" and out["obligations"] and not done:
+        out["status"] = "undecided"
+        out["reason"] = "no harness of this unit completed (timeouts / memory cap)"
     out["wall_s"] = time.time() - t0
     return out
 
@@ -356,6 +368,9 @@ def decide(pid, tier, only_obligation=None):
                 if uo.get("detail"):
                     log(uo["detail"])
             return 2
+        for o in obligations:
+            if o["status"] == "not_completed":
+                log(f"[{pid}] NOT-COMPLETED (unexplored, not counted): {o['name']}: {o['reason']}")
         n_dis = len([o for o in obligations if o["status"] == "discharged"])
         print(f"OK property={pid} tier={tier} obligations={len(obligations)} discharged={n_dis} "
               f"known_findings={len(known_hits)} wall={time.time()-t0:.1f}s")
@@ -404,6 +419,7 @@ def build_evidence(pid, pcfg, tier, unit_outs, obligations, violations, known_hi
         "solver_time_s": round(sum(uo.get("solver_s", 0) for uo in unit_outs), 3),
         "unit_wall_s": {uo["unit"]: round(uo["wall_s"], 1) for uo in unit_outs},
         "known_findings_hit": [o["name"] for o, _ in known_hits],
+        "not_completed": [o["name"] for o in obligations if o["status"] == "not_completed"],
         "samples": [{"obligation": o["name"], "status": o["status"], "kind": o["kind"], "bound": o.get("bound")}
                     for o in obligations[:6]],
     }
